@@ -27,10 +27,10 @@ pub fn count_spaces_after_last_newline(s: &str, i: usize) -> usize {
         "Position i is not a valid UTF-8 boundary"
     );
 
-    // Find the last newline (`\n`) before position `i`
-    if let Some(pos) = s[..i].rfind('\n') {
+    // Find the last newline (any newline typst recognises) before position `i`
+    if let Some((pos, newline)) = s[..i].char_indices().rfind(|(_, c)| typst_syntax::is_newline(*c)) {
         // Get the substring after the newline and up to position `i`
-        let after_newline = &s[pos + 1..i];
+        let after_newline = &s[pos + newline.len_utf8()..i];
         // Count the number of consecutive spaces in the substring
         after_newline.chars().take_while(|&c| c == ' ').count()
     } else {
@@ -41,7 +41,9 @@ pub fn count_spaces_after_last_newline(s: &str, i: usize) -> usize {
 
 /// The column (in characters) of the byte position `i` in its line.
 pub fn column_at(s: &str, i: usize) -> usize {
-    let line_start = s[..i].rfind('\n').map_or(0, |pos| pos + 1);
+    let line_start = (s[..i].char_indices())
+        .rfind(|(_, c)| typst_syntax::is_newline(*c))
+        .map_or(0, |(pos, newline)| pos + newline.len_utf8());
     s[line_start..i].chars().count()
 }
 
